@@ -147,6 +147,32 @@ def g_dead_multi(freq=50):
     u.Out.ar(0, acc)
 
 
+
+# build arguments kept in module-level objects and shared by every build of
+# these definitions (a table of build arguments, as user code has them)
+PREPEND = [0.25]
+WRAP_PREPEND = [0.5]
+RATES = [0.1, None, 'tr']
+VARIANTS = {'low': {'freq': 110}, 'loud': {'amp': 0.5}}
+
+
+def g_prepend(scale, freq=440, amp=0.1, trig=0):
+    u = _u()
+    u.Out.ar(0, u.SinOsc.ar(freq) * amp * scale * u.Decay.kr(trig, 0.1))
+
+
+def _inner_scaled(mul, freq=300, amp=0.2):
+    u = _u()
+    return u.SinOsc.ar(freq) * amp * mul
+
+
+def g_wrap_prepend(out=0):
+    u = _u()
+    import sc3.synth.synthdef as sdf
+    a = sdf.SynthDef.wrap(_inner_scaled, prepend=WRAP_PREPEND)
+    u.Out.ar(out, a)
+
+
 CORPUS = {
     'sine': (g_sine, {}),
     'sum': (g_sum, {}),
@@ -165,6 +191,9 @@ CORPUS = {
     'dead_related': (g_dead_related, {}),
     'dead_web': (g_dead_web, {}),
     'dead_multi': (g_dead_multi, {}),
+    'prepend': (g_prepend, {'prepend': PREPEND, 'rates': RATES,
+                            'variants': VARIANTS}),
+    'wrap_prepend': (g_wrap_prepend, {}),
 }
 
 
